@@ -23,7 +23,7 @@ RULES = {
     'B2': mutate.rule_B2, 'WB': mutate.rule_WB, 'N1': mutate.rule_N1, 'N2': mutate.rule_N2,
     'E5': ingest.rule_E5, 'CHOKE': ingest.rule_CHOKE, 'LV': ingest.rule_LV,
     'G2': mode.rule_G2, 'G3': mode.rule_G3, 'E8': mode.rule_E8,
-    'H4': misc.rule_H4, 'ESC': misc.rule_ESC, 'DELEG': misc.rule_DELEG,
+    'H4': misc.rule_H4, 'ESC': misc.rule_ESC, 'DELEG': misc.rule_DELEG, 'PK': misc.rule_PK,
     'H5a': luts.rule_H5a, 'H5b': luts.rule_H5b, 'H5c': luts.rule_H5c,
 }
 
@@ -317,8 +317,24 @@ _p('C19', ['ESC', 'POST', 'H3', 'N2', 'CHOKE', 'I'],
    explanation="Literal census for escape sequences with branch placement, construction-site check of Colour, table and "
                "division obligations of the pretty printer.")
 
+_p('C05', ['PK', 'LV', 'F1', 'F2', 'H1'],
+   decided=["a token string with embedded =value parts and pack() with separate values go through the same token parser "
+            "(tokenparser) and the same token builder (bitstore_from_token); packing and unpacking share the same "
+            "bracket/multiplier/struct-code expansion (preprocess_tokens)",
+            "packing with too few or too many values, a wrongly sized value or a malformed format raises CreationError "
+            "(StopIteration handlers, left-over check, length comparison, ValueError conversion)",
+            "the packed pieces are concatenated in token order (reversed only under lsb0)",
+            "the memoised parsers depend on nothing but their arguments and their cached token lists are never mutated",
+            "struct-style codes expand through tables that agree with struct"],
+   declined=["that unpack inverts pack for every format and value, that lengths add up, that 'n*(f)' equals f written n "
+             "times and that formats compose: string/regex manipulation and integer encoding on run-time values — no static "
+             "argument of this family bounds them"],
+   explanation="Call-graph reachability showing that the three routes share one parser and one builder; handler and guard "
+               "structure of pack(); purity and non-mutation of the memoised parsers.")
+
 
 TECHNIQUE = {
+    'C05': 'call-graph route agreement of pack/string/unpack; handler structure of pack; purity of memoised parsers',
     'C02': 'role-dispatch census of creation/reading routes; structural comparison of integer encoders/decoders; table agreement',
     'C12': 'switch-table comparison; reachability from whole-value operations to position-taking slots; variant-reference census',
     'C15': 'who-may-call + guard dominance at the Dtype choke point; sibling agreement of setters and ingest routes; validate-before-mutate',
@@ -340,12 +356,7 @@ TECHNIQUE = {
     'C18': 'regex character classes (re._parser) vs dict-literal tables vs struct.calcsize; branch interpretation',
 }
 
-NOT_APPLICABLE = {
-    'C05': "inversion, additivity and compositionality of format strings are value-level facts of string/regex "
-           "manipulation and integer encoders; no static argument in this family bounds them. The shape-level parts "
-           "(parser memoisation, struct tables, error classes) are decided under C09, C18, C20 and are not a "
-           "necessary condition specific to C05",
-}
+NOT_APPLICABLE = {}
 for _i in range(1, 21):
     _pid = f'C{_i:02d}'
     if _pid not in PROPS and _pid not in NOT_APPLICABLE:
